@@ -613,6 +613,18 @@ func (fc *FnCtx) execMakeInterface(fr *Frame, st *State, x *ssa.MakeInterface) V
 	return &AnyVal{V: v, GT: x.X.Type()}
 }
 
+// declareAnyHdr: headers boxed into `any` values that live in memory (pubsub.Message.ValidatorData).
+func (fc *FnCtx) declareAnyHdr() {
+	if _, ok := fc.decls.text["anyHdr"]; ok {
+		return
+	}
+	fc.decls.fun("anyHdr", []string{SHdr}, SInt)
+	fc.decls.fun("unAnyHdr", []string{SInt}, SHdr)
+	fc.decls.fun("isAnyHdr", []string{SInt}, SBool)
+	fc.define(T(SBool, "(forall ((h Hdr)) (! (and (= (unAnyHdr (anyHdr h)) h) (isAnyHdr (anyHdr h)) (not (= (anyHdr h) 0))) :pattern ((anyHdr h))))"))
+	fc.define(T(SBool, "(forall ((x Int)) (! (=> (isAnyHdr x) (= (anyHdr (unAnyHdr x)) x)) :pattern ((unAnyHdr x))))"))
+}
+
 // dynamic type tags of locally allocated repo structs (for type switches on interface values)
 var dynTypeIDs = map[string]int{}
 
@@ -715,6 +727,21 @@ func (fc *FnCtx) execTypeAssert(fr *Frame, st *State, x *ssa.TypeAssert) Val {
 			return &TupleVal{Elems: []Val{res, tTrue}}
 		}
 		return res
+	}
+	// an `any` value read from memory, asserted to the header type parameter
+	if vt, ok := v.(Term); ok && vt.Sort == SInt && isTypeParam(x.AssertedType) {
+		fc.declareAnyHdr()
+		okc := fc.nameTerm("isH", tAnd(tNot(tEq(vt, intLit(0))), app(SBool, "isAnyHdr", vt)))
+		val := app(SHdr, "unAnyHdr", vt)
+		if x.CommaOk {
+			return &TupleVal{Elems: []Val{tIte(okc, val, T(SHdr, "zeroHdr")), okc}}
+		}
+		ps := st.clone()
+		ps.pc = tAnd(st.pc, tNot(okc))
+		ps.why = "type assertion without comma-ok at " + fc.posOf(x.Pos())
+		fr.panics = append(fr.panics, ps)
+		st.pc = fc.nameTerm("pc_ta", tAnd(st.pc, okc))
+		return val
 	}
 	// interface value represented by a reference, asserted to a pointer to a repo struct
 	if vt, ok := v.(Term); ok && vt.Sort == SInt {
